@@ -75,11 +75,17 @@ def run(prop, tier, seed, replay=None):
     core.cargo_build()
     if replay:
         rp = json.load(open(replay))
-        if rp.get("runner") == "trace-sample":
+        if "run" in rp["instance"]:
             return p_flow.run(prop, tier, seed, replay)
+        if "size_limit" in rp["instance"]:
+            from . import p_table
+            return p_table.run(prop, tier, seed, replay)
         inp = os.path.join(wd, "replay.ndjson")
         core.write_lines(inp, [rp["instance"]["line"]])
-        s = core.mt("replay-sample", inp, os.path.join(wd, "sum.json"), rp.get("seed", seed), {"base_idx": rp["instance"].get("idx", 0)})
+        if "steer" in rp["instance"]["line"]:
+            s = core.mt("replay-sector", inp, os.path.join(wd, "sum.json"), rp.get("seed", seed), {"base_idx": rp["instance"].get("idx", 0), "points": 6})
+        else:
+            s = core.mt("replay-sample", inp, os.path.join(wd, "sum.json"), rp.get("seed", seed), {"base_idx": rp["instance"].get("idx", 0)})
         bad = [v for v in s["violations"] if v["property"] == prop]
         known = core.load_known()
         new = [v for v in bad if not core.match_known(prop, v, known)]
